@@ -88,6 +88,8 @@ theorem rsCalloc_ptr {c : Cfg} {s s' : MM} {nm sz ins : Nat} {p : Ptr} (hc : c.o
     ∃ s1, AllocRes c s s1 p (blockExp c.B (nm * sz % 2 ^ 64)) ∧
       PokeRes c s1 s' p.aid p.off (List.replicate (nm * sz % 2 ^ 64) 0) := by
   unfold rsCalloc at h
+  split at h
+  · simp at h
   simp only at h
   generalize nm * sz % 2 ^ 64 = tot at *
   cases hm : rsMalloc c s tot ins with
@@ -115,20 +117,32 @@ theorem rsCalloc_ptr {c : Cfg} {s s' : MM} {nm sz ins : Nat} {p : Ptr} (hc : c.o
 
 theorem rsCalloc_not_ptr {c : Cfg} {s s' : MM} {nm sz ins : Nat} {r : Ret} (hc : c.ok) (hI : Inv0 c s)
     (h : rsCalloc c s nm sz ins = (s', r)) (hr : ∀ p, r ≠ .ptr p) :
-    s' = s ∧ ((nm * sz % 2 ^ 64 = 0 ∧ r = .null) ∨ (2 ^ c.T < nm * sz % 2 ^ 64 ∧ r = .enomem)) := by
+    s' = s ∧ ((nm * sz % 2 ^ 64 = 0 ∧ r = .null) ∨ (2 ^ c.T < nm * sz % 2 ^ 64 ∧ r = .enomem) ∨
+      (c.callocChecked = true ∧ 2 ^ 64 ≤ nm * sz ∧ r = .enomem)) := by
   unfold rsCalloc at h
+  split at h
+  · rename_i hck
+    simp only [Prod.mk.injEq] at h
+    exact ⟨h.1.symm, Or.inr (Or.inr ⟨hck.1, hck.2, h.2.symm⟩)⟩
   simp only at h
   generalize nm * sz % 2 ^ 64 = tot at *
+  have fin : ∀ {s1 r1}, rsMalloc c s tot ins = (s1, r1) → (∀ p, r1 ≠ .ptr p) → s1 = s' → r1 = r →
+      s' = s ∧ ((tot = 0 ∧ r = .null) ∨ (2 ^ c.T < tot ∧ r = .enomem) ∨
+        (c.callocChecked = true ∧ 2 ^ 64 ≤ nm * sz ∧ r = .enomem)) := by
+    intro s1 r1 hm hn e1 e2
+    subst e1; subst e2
+    obtain ⟨q1, q2⟩ := rsMalloc_not_ptr hc hI hm hn
+    exact ⟨q1, q2.elim Or.inl (fun h => Or.inr (Or.inl h))⟩
   cases hm : rsMalloc c s tot ins with
   | mk s1 r1 =>
     rw [hm] at h
     cases r1 with
     | ptr q => simp at h; exact absurd h.2.symm (hr q)
-    | null => simp at h; obtain ⟨rfl, rfl⟩ := h; exact rsMalloc_not_ptr hc hI hm (by simp)
-    | enomem => simp at h; obtain ⟨rfl, rfl⟩ := h; exact rsMalloc_not_ptr hc hI hm (by simp)
-    | einval => simp at h; obtain ⟨rfl, rfl⟩ := h; exact rsMalloc_not_ptr hc hI hm (by simp)
-    | ok => simp at h; obtain ⟨rfl, rfl⟩ := h; exact rsMalloc_not_ptr hc hI hm (by simp)
-    | ref x => simp at h; obtain ⟨rfl, rfl⟩ := h; exact rsMalloc_not_ptr hc hI hm (by simp)
+    | null => simp at h; exact fin hm (by simp) h.1 h.2
+    | enomem => simp at h; exact fin hm (by simp) h.1 h.2
+    | einval => simp at h; exact fin hm (by simp) h.1 h.2
+    | ok => simp at h; exact fin hm (by simp) h.1 h.2
+    | ref x => simp at h; exact fin hm (by simp) h.1 h.2
 
 /-! ### `rs_realloc` -/
 
